@@ -54,18 +54,18 @@ theorem parseTemplate_single (pf : PF) (tfs : TFields) (k : Bytes) (jv : GV) (nu
   rcases hr with ⟨rfl, rfl⟩ | ⟨rb, rfl, rfl⟩ <;> simp [Res.bind, multiOfT, insertEnt, tableLen]
 
 /-- **END TO END, one scalar field.** -/
-theorem template_rewrite_value_single (pf : PF) (fs : Fields) (hfs : flat fs = true) (tfs : TFields) (k : Bytes) (jv : GV)
+theorem template_rewrite_value_single (pf : PF) (hpf : PFok pf) (fs : Fields) (hfs : flat fs = true) (tfs : TFields) (k : Bytes) (jv : GV)
     (number i : Nat) (o : FieldOpt) (t : Ty) (kind : PKind)
     (hname : lookupFieldByName tfs k = some (number, false, .prim kind))
     (hfind : findField fs number = some (i, o, t)) (hkind : kindOf t o = some kind)
     (h0 : 0 < number) (h1 : number < 2 ^ 61) (hlen : ∀ s, gvString jv = some s → s.length < 2 ^ 32)
-    (x : Val) (hx : leafVal kind jv = some x)
+    (x : Val) (hx : leafVal pf kind jv = some x)
     (b : Bytes) (res : Vals) (hb : b.length < 2 ^ 24)
     (hdec : decode (.struct fs) b = some (.struct res)) (fuel : Nat) :
     ∃ tree out, parseTemplate pf (fuel + 4) (.msg tfs) (.obj (.cons k jv .nil)) [] = .ok tree ∧
       (∀ F, b.length + 8 ≤ F → rewriteT F tree b = .ok out) ∧
       decode (.struct fs) out = some (.struct (valsSet res i x)) := by
-  have hleaf := leaf_sem pf t o kind hkind number h0 h1 jv (fun s hs => by have := hlen s hs; omega)
+  have hleaf := leaf_sem pf hpf t o kind hkind number h0 h1 jv (fun s hs => by have := hlen s hs; omega)
   rw [hx] at hleaf
   simp only at hleaf
   obtain ⟨hi, _, tg, hat, _⟩ := findField_spec fs number i o t hfind
